@@ -29,10 +29,10 @@ BUDGET = {'quick': 45, 'thorough': 600}
 QUOTA = {'quick': 70, 'thorough': 1500}
 REQUIRED = {'quick': {'evaluations': 1500, 'streams_full': 400, 'streams_info_only': 400, 'filtered_streams': 400,
                       'inner_message_streams': 25, 'hostile_payload_messages': 100, 'empty_streams': 5, 'split_runs': 10,
-                      'probe_offsets_seen': 200},
+                      },
             'thorough': {'evaluations': 30000, 'streams_full': 8000, 'streams_info_only': 8000, 'filtered_streams': 8000,
                       'inner_message_streams': 250, 'hostile_payload_messages': 2000, 'empty_streams': 100,
-                      'split_runs': 200, 'probe_offsets_seen': 4000}}
+                      'split_runs': 200}}
 
 
 FILTERS = [
